@@ -1,1 +1,21 @@
-pub fn validate(_b: &[u8]) -> Result<(), Vec<String>> { unimplemented!() }
+//! Structural well-formedness per JVMS chapter 4.
+//!
+//! `validate` runs the same walker as `parse` in collect mode: every hard
+//! problem (would make `parse` fail) and every soft problem (representable in
+//! `Sem` but forbidden by JVMS) is reported. Each message is
+//! `prefix: detail (at byte N)`; the prefix is stable (see README).
+
+/// `Ok(())` iff the walker found no problem at all. Otherwise all problems.
+pub fn validate(bytes: &[u8]) -> Result<(), Vec<String>> {
+    let p = crate::parse::collect(bytes);
+    if p.is_empty() {
+        Ok(())
+    } else {
+        Err(p)
+    }
+}
+
+/// The stable prefix of a validator message (text before the first `:`).
+pub fn prefix(msg: &str) -> &str {
+    msg.split(':').next().unwrap_or(msg)
+}
